@@ -34,6 +34,8 @@ pub struct SeqScenario {
     pub full_sweep: bool,
     /// per-window cap on the complete crash-image product
     pub crash_cap: u64,
+    /// windows above the cap: deviations from the all-lost / all-kept extremes explored
+    pub crash_k: usize,
     pub crash_seen: Mutex<HashSet<u64>>,
     pub punch_unsupported: bool,
     /// report C01/C02/C03 oracle failures under this property instead (C10, C11, C12 runs)
@@ -78,6 +80,7 @@ impl SeqScenario {
             oracles,
             full_sweep: full,
             crash_cap: 1 << 14,
+            crash_k: 3,
             crash_seen: Mutex::new(HashSet::new()),
             punch_unsupported: false,
             relabel: None,
@@ -476,7 +479,7 @@ impl SeqScenario {
                 k.dedup();
                 k
             };
-            let st = win.enumerate(self.crash_cap, 3, |img, _choice| {
+            let st = win.enumerate(self.crash_cap, self.crash_k, |img, _choice| {
                 let mut h = std::collections::hash_map::DefaultHasher::new();
                 img.hash(&mut h);
                 // C05 verdict depends on the sync point too
